@@ -15,7 +15,7 @@ LEVEL = 'exploration'
 JOBS = {'quick': 2, 'thorough': 16}
 REQUIRED_MONITORS = ('move_contract', 'displ_contract')
 REQUIRED_CLASSES = ('move:tree', 'move:cyclic', 'displ:1', 'displ:2', 'displ:3', 'displ:4+',
-                    'table:agrees', 'table:disagrees', 'embedded:mc-moves', 'graph:forest',
+                    'table:agrees', 'table:disagrees', 'table:all-bonds-one-length', 'embedded:mc-moves', 'graph:forest',
                     'sequence:same-table-object', 'sequence:table-lengths-edited-in-place',
                     'sequence:table-graph-edited-in-place', 'sequence:positions-edited-in-place',
                     'sequence:other-table-same-size', 'sequence:refused-call-before')
@@ -73,10 +73,16 @@ def prufer_from_index(idx, n):
     return seq
 
 
+_flags = []
+
+
 def bonds_table(rng, n, edges, pos, agree, shuffle=True):
     info = {i: [] for i in range(n)}
+    same = None if agree or rng.random() < 0.6 else float(rng.choice([0.47, 0.35, 0.1, 1.0]))   # one length for every bond (ideal CG model)
+    if same is not None:
+        _flags.append('table:all-bonds-one-length')
     for a, b in edges:
-        length = float(np.linalg.norm(pos[a] - pos[b])) if agree else float(rng.uniform(0.05, 0.6))
+        length = float(np.linalg.norm(pos[a] - pos[b])) if agree else (same if same is not None else float(rng.uniform(0.05, 0.6)))
         info[a].append((b, length))
         info[b].append((a, length))
     for i in info:
@@ -127,6 +133,8 @@ def one_move(ctx, rng, n, edges, atom, kind, key=None, dcls=None):
         return
     ctx.count('evaluations')
     ctx.hit('table:agrees' if agree else 'table:disagrees')
+    while _flags:
+        ctx.hit(_flags.pop())
     ctx.hit('displacement:' + dcls)
     ctx.hit('graph:' + kind)
     deg = len(info[atom])
